@@ -1,6 +1,7 @@
 package proxy
 
 import (
+	cache "github.com/patrickmn/go-cache"
 	"net/http"
 
 	"github.com/megaease/easegress/pkg/protocols/httpprot"
@@ -10,9 +11,10 @@ import (
 // C13, kind Proxy + resilience policies (package proxy): a pipeline whose
 // validation passed (filter specs valid, resilience policies valid) can inject
 // its policies into the proxy and serve a request without panicking.
-//   RetryPolicy.maxAttempts: minimum=1 (always present in the marshalled spec, so >= 1:
-//   calibrated against the real validator, which rejects 0);
-//   ServerPoolSpec.retryPolicy / circuitBreakerPolicy: omitempty strings (any name).
+//
+//	RetryPolicy.maxAttempts: minimum=1 (always present in the marshalled spec, so >= 1:
+//	calibrated against the real validator, which rejects 0);
+//	ServerPoolSpec.retryPolicy / circuitBreakerPolicy: omitempty strings (any name).
 func verifC13_ProxyResilience() {
 	vSymbolicRequest = false
 	sp, _ := vPool(0, 0)
@@ -47,4 +49,32 @@ func verifC13_ProxyResilience() {
 	resp, _ := ctx.GetOutputResponse().(*httpprot.Response)
 	verifAssert(resp != nil, "a-response-is-always-set")
 	verifAssert(result == "" && vNSends == 1, "healthy-backend-is-reached")
+}
+
+// verifC13_ProxyMemoryCache: a pool with a memoryCache section next to every serverMaxBodySize
+// (buffered, default, -1 = streamed): a spec validation accepts serves a cacheable request
+// without panicking and delivers the backend's answer. (The cache library is replaced by one
+// that never hits.)
+func verifC13_ProxyMemoryCache() {
+	vSymbolicRequest = false
+	sp, _ := vPool(vLimit("poolLimit"), 0)
+	sp.memoryCache = &MemoryCache{spec: &MemoryCacheSpec{Expiration: "10s", MaxEntryBytes: uint32(verifInt("memoryCache.maxEntryBytes", 1, 3)),
+		Codes: []int{200}, Methods: []string{"GET", "POST"}}, cache: &cache.Cache{}}
+	m := verifChoose("resp.bodyLength", 3)
+	body := &vBody{data: verifBytes("resp.body", m)}
+	vNSends, vGzipCalls = 0, 0
+	vOutcome = func(int) (*http.Response, error) {
+		return &http.Response{StatusCode: 200, Header: http.Header{}, Body: body, ContentLength: int64(m)}, nil
+	}
+	fnSendRequest = vSend
+	ctx, _, _ := vClientRequest([]byte{1}, false)
+	result := sp.handle(ctx, false) // a panic here is reported as a violation
+	resp, _ := ctx.GetOutputResponse().(*httpprot.Response)
+	verifAssert(resp != nil, "a-response-is-always-set")
+	if result == "" {
+		verifAssert(resp.StatusCode() == 200, "client-gets-backend-status")
+		if resp.IsStream() {
+			verifCover("streamed-response-with-memory-cache")
+		}
+	}
 }
